@@ -19,6 +19,11 @@ def NoWide : List Item → Prop
   | .text gs :: r => NoWideG gs ∧ NoWide r
   | .ansi _ :: r => NoWide r
 
+theorem gsWidth_replicate_space (n : Nat) : gsWidth (List.replicate n spaceG) = n := by
+  induction n with
+  | zero => rfl
+  | succ n ih => rw [List.replicate_succ]; simp only [gsWidth, spaceG] at ih ⊢; omega
+
 /-- What one text run contributes, in the two situations in which the result is exact:
 `fill = some spaceG` (then the width actually output reaches `dw` at a cut even when `used`
 does not), or no wide cluster at all. -/
@@ -65,7 +70,18 @@ theorem truncText_spec (dw : Nat) (fill : Option G) (gs : List G) (used : Nat) (
           · have := h1 g (by simp); omega
         · rename_i h2
           split at h
-          · cases h
+          · rename_i h3
+            -- a cluster wider than 2 columns: (before fix d6cf9d0 the assertion) the fallback fills up to `dw`
+            split at h
+            · cases h
+            · cases h
+              rcases hok with h1 | h1
+              · cases h1
+                refine ⟨Nat.le_refl _, hu, ?_, ?_, ?_⟩
+                · intro h; cases h
+                · intro _; rw [gsWidth_replicate_space]; simp only [gsWidth]; omega
+                · intro hn; have := hn g (by simp); omega
+              · have := h1 g (by simp); omega
           · rename_i h3
             cases h
             refine ⟨Nat.le_refl _, hu, ?_, ?_, ?_⟩
@@ -93,6 +109,85 @@ theorem truncText_spec (dw : Nat) (fill : Option G) (gs : List G) (used : Nat) (
         · intro hn
           have := a5 (fun g' hg' => hn g' (List.mem_cons_of_mem _ hg'))
           simp only [gsWidth]; omega
+
+/-- Since fix d6cf9d0 (the `debug_assert!` no longer stands in front of the fallback:
+`Generated.wrapTruncAssertsWideCluster = false`, read from the source on every run) the inner loop of
+`truncate_str_impl` has no panic point, whatever the cluster widths. -/
+theorem truncText_total (hno : Generated.wrapTruncAssertsWideCluster = false) (dw : Nat) (fill : Option G)
+    (gs : List G) (used : Nat) : ∃ r, truncText dw fill gs used = .ok r := by
+  induction gs generalizing used with
+  | nil => exact ⟨_, rfl⟩
+  | cons g gs ih =>
+    unfold truncText
+    split
+    · cases fill with
+      | none => exact ⟨_, rfl⟩
+      | some f =>
+        simp only [hno]
+        split
+        · exact ⟨_, rfl⟩
+        · split
+          · exact ⟨_, rfl⟩
+          · exact ⟨_, rfl⟩
+    · obtain ⟨⟨o, u, c⟩, hr⟩ := ih (used + g.w)
+      rw [hr]; exact ⟨_, rfl⟩
+
+theorem truncItems_total (hno : Generated.wrapTruncAssertsWideCluster = false) (stopFix : Bool) (dw : Nat)
+    (fill : Option G) (items : List Item) (used : Nat) (cut : Bool) :
+    ∃ r, truncItems stopFix dw fill items used cut = .ok r := by
+  induction items generalizing used cut with
+  | nil => exact ⟨_, rfl⟩
+  | cons i r ih =>
+    cases i with
+    | ansi a =>
+      obtain ⟨o, ho⟩ := ih used cut
+      exact ⟨.ansi a :: o, by simp only [truncItems, ho]⟩
+    | text gs =>
+      simp only [truncItems]
+      split
+      · exact ih used cut
+      · obtain ⟨⟨t, u, c⟩, ht⟩ := truncText_total hno dw fill gs used
+        obtain ⟨o, ho⟩ := ih u (cut || c)
+        exact ⟨.text t :: o, by simp only [ht, ho]⟩
+
+/-- **`truncate_str_impl` never panics** (since fix d6cf9d0): any line, any width, any tail, with or without fill
+character, whatever the cluster widths (3 and more included). -/
+theorem truncateImplF_total (hno : Generated.wrapTruncAssertsWideCluster = false) (stopFix : Bool) (s : List Item)
+    (dw : Nat) (tail : List Item) (fill : Option G) : ∃ out, truncateImplF stopFix s dw tail fill = .ok out := by
+  unfold truncateImplF
+  split
+  · exact ⟨_, rfl⟩
+  · have hrt : ∃ rt, (if tail = [] then (.ok [] : Except Err (List Item))
+        else if measure tail ≤ dw then .ok tail else truncItems stopFix dw fill tail 0 false) = .ok rt := by
+      split
+      · exact ⟨_, rfl⟩
+      · split
+        · exact ⟨_, rfl⟩
+        · exact truncItems_total hno stopFix dw fill tail 0 false
+    obtain ⟨rt, hrt⟩ := hrt
+    obtain ⟨body, hb⟩ := truncItems_total hno stopFix dw fill s (measure rt) false
+    simp only [hrt, hb]
+    exact ⟨_, rfl⟩
+
+theorem truncateStr_total (hno : Generated.wrapTruncAssertsWideCluster = false) (s : List Item) (dw : Nat)
+    (tail : List Item) : ∃ out, truncateStr s dw tail = .ok out :=
+  truncateImplF_total hno _ s dw tail _
+
+/-- `pad_panel_line_to_width` never panics (since fix d6cf9d0). -/
+theorem padPanel_total (hno : Generated.wrapTruncAssertsWideCluster = false) (pw : Nat) (line tail : List Item)
+    (fill : Fill) : ∃ out, padPanel pw line tail fill = .ok out := by
+  unfold padPanel
+  simp only
+  have hl : ∃ l, (if pw < measure line then truncateStr line pw tail else .ok line) = .ok l := by
+    split
+    · exact truncateStr_total hno line pw tail
+    · exact ⟨_, rfl⟩
+  obtain ⟨l, hl⟩ := hl
+  rw [hl]
+  cases fill with
+  | spaces => simp only; split <;> exact ⟨_, rfl⟩
+  | ansiSeq q => exact ⟨_, rfl⟩
+  | none => exact ⟨_, rfl⟩
 
 /-- After the cut, with the repair, nothing visible is added. -/
 theorem truncItems_after_cut (dw : Nat) (fill : Option G) (items : List Item) (used : Nat) (out : List Item)
